@@ -206,7 +206,9 @@ pub fn execute(c: &LayoutCase) -> LayoutObs {
             if let (Some(d), true) = (o.decoded_tramp, !live.is_empty()) {
                 if live.contains_key(&(d & !0xFFF)) {
                     let full = x86_follow(&m, addr as u64, &[targets::f_u1 as fn() -> u64 as usize as u64], 6);
-                    if matches!(full.end, X86End::Arrived { .. } | X86End::Ret { rax: Some(_), .. }) {
+                    // (bytes the decoder does not know are not a verdict: the isolated worker runs
+                    // the call and the returned value decides)
+                    if matches!(full.end, X86End::Arrived { .. } | X86End::Ret { rax: Some(_), .. } | X86End::Unknown { .. } | X86End::HopLimit) {
                         crate::worker::phase("call");
                         o.call_value = Some((t.call)());
                     }
